@@ -59,6 +59,14 @@ RX = [
          {'label': 'end-is-maximal-munch', 'kind': 'end', 'carries': 'C04',
           'spec': NAME + M + r'(?:[^a-zA-Z0-9_]' + ANY + r')?'},
      ]},
+    # ---- C18: what counts as a URL rather than a path: an RFC 3986 scheme followed by ':' ----
+    {'id': 'rx:loader._pathsep_rx', 'source': 'ZConfig.loader:BaseLoader._pathsep_rx',
+     'checks': [
+         {'label': 'matches-iff-scheme-colon-prefix', 'kind': 'match', 'carries': 'C18',
+          'spec': r'[a-zA-Z][-+.a-zA-Z0-9]*:' + ANY},
+         {'label': 'match-is-scheme-and-colon', 'kind': 'end', 'carries': 'C18',
+          'spec': r'[a-zA-Z][-+.a-zA-Z0-9]*:' + M + ANY},
+     ]},
     # ---- C09: regular-expression datatypes ("prefix match, then compare with the whole string") ----
     {'id': 'rx:datatypes.basic-key', 'source': 'ZConfig.datatypes:BasicKeyConversion()._rx',
      'checks': [
